@@ -606,6 +606,64 @@ def _rot_ok(R):
     return bool(np.abs(np.linalg.det(R) - 1.0).max() <= TOL)
 
 
+def _as_float(v):
+    try:
+        return None if v is None else np.asarray(v, dtype=float)
+    except Exception:                    # noqa
+        return None
+
+
+def check_curved_detector_clauses(rec, cls_name, det_model, dc, surf):
+    """The documented placement of a curved detector, clause by clause.
+
+    ``<Class>.surface differs_from_model`` says only "some point is not where the docstring
+    puts it"; one recorded defect under that key would absorb every other way of misplacing
+    the detector.  The separate clauses below are each implied by the class docstrings, need
+    less than the full model, and are reported under their own symptom:
+
+    * ``does_not_cross_origin``: "The [circular / cylindrical / spherical] surface ... is
+      rotated to be aligned with given axes and shifted to cross the origin": parameter 0
+      is the origin.
+    * ``intrinsic_shape_differs``: all pairwise distances between the surface points are
+      those of the documented parametrisation ``R * radius * (cos, -sin[, h | sin(theta)])
+      + t`` -- whatever the rotation R and the shift t are.
+    * ``height_along_axes1_differs`` (2-d detectors): the second parameter runs along
+      ``axes[1]`` ("the partition angles increase in the direction of -y (clockwise) and z
+      axis", the reference z axis being aligned with axes[1]): the component of every
+      surface point along axes[1] is ``h`` (cylinder) resp. ``radius * sin(theta)``
+      (sphere).  The transverse components (alignment of the arc with axes[0], side to which
+      the detector bends) are what is left for ``differs_from_model``.
+
+    ``surf``: odl's single-parameter answers (arrays or None), ``dc`` the parameters."""
+    site = '%s.surface' % cls_name
+    idx = [j for j, s in enumerate(surf)
+           if s is not None and np.shape(s) == (det_model.space_ndim,)
+           and np.all(np.isfinite(s))]
+    if not idx:
+        return
+    S = np.array([surf[j] for j in idx], dtype=float)
+    M = np.array([det_model.surface(dc[j]) for j in idx])
+    rec.evals += 1
+    for j, s in zip(idx, S):
+        if all(x == 0.0 for x in dc[j]) and not _close(s, np.zeros(len(s))):
+            rec.fail(site, 'does_not_cross_origin', 'surface(%s) = %s' % (dc[j], s.tolist()))
+    dS = ((S[:, None, :] - S[None, :, :]) ** 2).sum(axis=-1)
+    dM = ((M[:, None, :] - M[None, :, :]) ** 2).sum(axis=-1)
+    if not _close(dS, dM):
+        k = np.unravel_index(int(np.argmax(np.abs(dS - dM))), dS.shape)
+        rec.fail(site, 'intrinsic_shape_differs',
+                 'squared distance between surface(%s) and surface(%s): documented %.12g, got '
+                 '%.12g' % (dc[idx[k[0]]], dc[idx[k[1]]], dM[k], dS[k]))
+    if det_model.ndim == 2:
+        hS, hM = S.dot(det_model.a1), M.dot(det_model.a1)
+        if not _close(hS, hM):
+            k = int(np.argmax(np.abs(hS - hM)))
+            rec.fail(site, 'height_along_axes1_differs',
+                     'surface(%s) = %s: component along axes[1] = %s is %.12g, documented %.12g'
+                     % (dc[idx[k]], S[k].tolist(), np.round(det_model.a1, 9).tolist(),
+                        hS[k], hM[k]))
+
+
 def check_motion_methods(rec, g, model, tb, malph, base, has_shift):
     """rotation_matrix, det_refpoint, src_position, det_axis/det_axes: scalar and vectorised."""
     n = model.ndim
@@ -680,6 +738,8 @@ def check_joint_methods(rec, g, model, tb, malph, dalph, base, has_shift, odl_sc
                 tb.SURF[j], 'single parameter %s' % (d,)):
             model_ok = False
             break
+    if isinstance(model.det, (G.Circular, G.Cylindrical, G.Spherical)):
+        check_curved_detector_clauses(rec, type(g.detector).__name__, model.det, tb.dc, surf)
     dsites = set()
     for name, fn, kw, table in meths:
         site = '%s.%s' % (base, name)
@@ -924,7 +984,8 @@ def _observe(rec, g, model, angles, dmid, site, symptom, ctx, has_shift, ref=Non
         # different clauses: a slice that moves the source is not the same defect as one that
         # rebuilds the detector differently
         symptom = symptom0
-        if symptom0 == 'slice_differs_from_parent' and name in (
+        if symptom0 in ('slice_differs_from_parent',
+                        'slice_detector_points_differ_from_parent') and name in (
                 'rotation_matrix', 'det_refpoint', 'src_position'):
             symptom = 'slice_trajectory_differs_from_parent'
         fn = getattr(g, name)
@@ -956,6 +1017,7 @@ def check_slicing(rec, g, model, cfg, base, has_shift):
     lo, hi = ARANGE[cfg['arange']]
     grid = lo + (np.arange(NCELL) + 0.5) * (hi - lo) / NCELL      # midpoints of the 8 cells
     pmid = np.asarray(g.det_params.mid_pt, dtype=float)
+    misplaced = ('%s.surface' % type(g.detector).__name__, 'differs_from_model') in rec.first
     quiet = Rec()                   # reference capture only; judged by the checks above
     parent_before = _observe(quiet, g, model, grid, pmid, site, 'n/a', 'before', has_shift)
     rec.evals += quiet.evals
@@ -986,9 +1048,26 @@ def check_slicing(rec, g, model, cfg, base, has_shift):
                      'geom[%s].angles=%s, parent grid[%s]=%s, partitions equal: %s'
                      % (sname, got_angles.tolist(), sname, want.tolist(), part_ok))
             continue
-        # "where all other parameters are the same"
-        first = _observe(rec, sub, model, want, dmid, site, 'slice_differs_from_parent',
-                         'geom[%s]' % sname, has_shift)
+        # "where all other parameters are the same".  Key of the detector-point clause: in a
+        # state whose PARENT detector is already not where the model puts it, the slice is
+        # expected to inherit that (filed as 'slice_differs_from_parent' next to the
+        # detector finding); where the parent is right, a slice that moves the detector
+        # points is a defect of the slicing itself and gets its own symptom, so that the
+        # former cannot absorb the latter.
+        sym = 'slice_differs_from_parent' if misplaced else \
+            'slice_detector_points_differ_from_parent'
+        first = _observe(rec, sub, model, want, dmid, site, sym, 'geom[%s]' % sname, has_shift)
+        if misplaced:
+            # ... and whatever the parent answers, the slice must answer the same
+            quiet2 = Rec()
+            pans = _observe(quiet2, g, model, want, dmid, site, 'n/a', 'parent', has_shift)
+            rec.evals += quiet2.evals
+            _observe(rec, sub, model, want, dmid, site,
+                     'slice_detector_points_differ_from_parent',
+                     'geom[%s] compared with the answers of the parent object at the same '
+                     'parameters' % sname, has_shift,
+                     ref=dict((k, v) for k, v in pans.items()
+                              if k in ('det_point_position', 'det_to_src')))
         subs.append((sname, sub, want, dmid, first))
     # hidden shared state: earlier slices and the parent must answer what they answered before
     for sname, sub, want, dmid, first in subs[:2]:
@@ -1205,6 +1284,9 @@ def run_det(cfg):
                 compare(rec, site, 'differs_from_model', got, table[k],
                         'single parameter %s' % (d,))
         vals += [None] * (len(dc) - len(vals))
+        if name == 'surface' and cfg['cls'] in ('Circular', 'Cylindrical', 'Spherical'):
+            check_curved_detector_clauses(
+                rec, base, model, dc, [_as_float(v) for v in vals])
         vtab, vref = _scalar_table(vals, tabs[name])
         if table is None and vref == 'model':
             rec.skipped += 1
@@ -1516,7 +1598,8 @@ def run_factory(cfg):
                          '%s result [%s]: angles %s' % (fac, sname, sub_angles.tolist()[:5]))
                 continue
             _observe(rec, sub, model, sub_angles[:6], smid, '%s.__getitem__' % type(g).__name__,
-                     'slice_differs_from_parent', '%s result [%s]' % (fac, sname), False)
+                     'slice_detector_points_differ_from_parent',
+                     '%s result [%s]' % (fac, sname), False)
     # "its size is chosen such that the whole space is covered with lines": every corner of the
     # volume must be hit by a ray that ends inside the detector, at every angle of the grid
     corners = np.array(list(itertools.product(*zip(lo, hi))), dtype=float)
@@ -1540,6 +1623,43 @@ def run_factory(cfg):
         rec.fail(site, sym, 'corner %s at angle %.6g projects to detector parameter %s, '
                  'detector range %s..%s' % (worst[k][2], worst[k][1], worst[k][3], dmin.tolist(),
                                             dmax.tolist()))
+    # The same clause at the angles of the (continuous) motion range at which a corner lies
+    # ABEAM, i.e. in the plane through the rotation axis parallel to the detector: there it is
+    # magnified by exactly (rs + rd) / rs (parallel: 1).  These angles are in general not grid
+    # angles; the geometry is defined on the whole interval ``motion_params``, and "the source
+    # must be outside the volume for all rotations".  Needs less than coverage at the worst
+    # angle, hence a separate symptom: a recorded shortfall at the worst angle must not
+    # absorb a detector that is too small even here.
+    try:
+        amin = float(g.motion_params.min_pt)
+        amax = float(g.motion_params.max_pt)
+    except Exception as e:               # noqa
+        rec.fail(site, 'raises:%s' % type(e).__name__, 'motion_params -> %r' % (e,))
+        amin, amax = 0.0, -1.0
+    worst = {}
+    for c in corners:
+        if math.hypot(c[0], c[1]) == 0.0:
+            continue
+        beta = math.atan2(c[1], c[0]) % math.pi
+        k = 0
+        while beta + k * math.pi <= amax:
+            a = beta + k * math.pi
+            k += 1
+            if a < amin:
+                continue
+            u = G.project_on_flat_detector(model, (a,), c)
+            rec.evals += 1
+            excess = np.maximum(dmin - u, u - dmax) / (dmax - dmin)
+            if fac == 'helical_geometry':
+                excess = excess[:1]
+            for j, ex in enumerate(excess):
+                if ex > 1e-9 and (j not in worst or ex > worst[j][0]):
+                    worst[j] = (float(ex), a, c.tolist(), u.tolist())
+    for j in sorted(worst):
+        sym = 'abeam_volume_corner_outside_detector_%s' % ('width', 'height')[j]
+        rec.fail(site, sym, 'corner %s at angle %.12g (in the plane through the axis parallel '
+                 'to the detector) projects to detector parameter %s, detector range %s..%s'
+                 % (worst[j][2], worst[j][1], worst[j][3], dmin.tolist(), dmax.tolist()))
     if fac == 'helical_geometry' and not cfg.get('num_angles') and not np.all(seen):
         rec.fail(site, 'volume_corner_never_seen', 'corners %s are inside the detector window '
                  'at no angle of the grid' % corners[~seen].tolist())
@@ -1738,6 +1858,13 @@ def meta(tier):
             'demanded',
             'surface_normal / curved surface_deriv with broadcasting inside the parameter pair: '
             'documented shapes are self-contradictory, counted as unspecified',
+            'report keys are per documented clause, so that a recorded finding cannot absorb a '
+            'different defect of the same function: curved detectors additionally report '
+            'does_not_cross_origin / intrinsic_shape_differs / height_along_axes1_differs; '
+            'slices are compared with the parent object itself (slice_detector_points_differ_'
+            'from_parent) and inherit the key of a misplaced parent detector only in states '
+            'that carry that finding; factories are additionally judged at the abeam angles of '
+            'the continuous motion range (magnification exactly (rs+rd)/rs)',
         ],
     }
 
